@@ -16,6 +16,10 @@ import time
 
 VERIF = os.path.dirname(os.path.dirname(os.path.dirname(os.path.abspath(__file__))))
 REPO = os.environ.get("VERIF_REPO", "/repo")
+# evidence/ and replays/ of a run against /repo live in /verif; a run against a scratch tree (VERIF_REPO=<tree>,
+# mutation testing only) writes them under /var/tmp so that it never overwrites what the registered checks wrote
+OUT = VERIF if os.path.realpath(REPO) == "/repo" else os.environ.get(
+    "VERIF_OUT", os.path.join("/var/tmp", "verif_out", os.path.basename(os.path.normpath(REPO))))
 COQ = os.path.join(VERIF, "coq")
 OCAML = os.path.join(VERIF, "ocaml")
 HARNESS = os.path.join(VERIF, "harness", "c")
@@ -250,7 +254,7 @@ class Ctx:
 
     # ---------- verdicts ----------
     def replay_path(self, tag="case"):
-        d = os.path.join(VERIF, "replays", self.prop)
+        d = os.path.join(OUT, "replays", self.prop)
         os.makedirs(d, exist_ok=True)
         self._replay_n += 1
         return os.path.join(d, "%s_seed%d_%s_%d.json" % (self.tier, self.seed, tag, self._replay_n))
@@ -297,8 +301,8 @@ class Ctx:
         ev = {"property_id": self.prop, "tier": self.tier, "seed": self.seed, "level": level,
               "coverage": cov, "assumptions": self.assumptions, "wall_s": round(wall, 2),
               "violations": len(self.violations), "notes": self.notes}
-        os.makedirs(os.path.join(VERIF, "evidence"), exist_ok=True)
-        with open(os.path.join(VERIF, "evidence", self.prop + ".json"), "w") as f:
+        os.makedirs(os.path.join(OUT, "evidence"), exist_ok=True)
+        with open(os.path.join(OUT, "evidence", self.prop + ".json"), "w") as f:
             json.dump(ev, f, indent=1, default=str)
         for k in self.known:
             print("KNOWN-FINDING: property=%s %s" % (self.prop, k["what"]))
